@@ -174,7 +174,7 @@ def run(ctx):
     tasks = []
     k = 0
     for kind in BITS:
-        for cfgname in CFGS:
+        for cfgname in CFGS + (['v6-vec'] if kind in ('irq', 'fiq', 'reset') else []):
             for part in range(2):
                 tasks.append((shard, (kind, cfgname, part, 2, ctx.shard_seed(k), ctx.n(0.35, 1.0))))
                 k += 1
